@@ -9,6 +9,10 @@ The `derive_builder` structs are modelled as records of `Option` fields; a sette
 -/
 namespace Hls
 
+def Res.toOption' {α} : Res α → Option α
+  | .ok a => some a
+  | _ => none
+
 /-! ## small tag/type builders -/
 
 /-- `ExtXDateRangeBuilder`: no validation, `id` required -/
@@ -364,6 +368,31 @@ def mediaTagToken (b : ExtXMediaBuilder) (k v : Str) : Option ExtXMediaBuilder :
     | _ => none
   else none
 
+/-- `ExtXMedia::new(type, group, name)` followed by assignments to the public fields -/
+def mediaFromFields (script : Str) : Option ExtXMedia :=
+  let toks := (if script.isEmpty then [] else tokens script).map (splitFirst '=')
+  match allSome toks with
+  | none => none
+  | some kvs =>
+    let get (k : String) : Option Str := (kvs.find? fun kv => kv.1 == k.toList).map (·.2)
+    match (get "type").bind (fun v => (MediaType.parse v).toOption'), (get "group").bind hexArg?, (get "name").bind hexArg? with
+    | some ty, some g, some n =>
+      kvs.foldl (fun acc kv =>
+        match acc with
+        | none => none
+        | some (m : ExtXMedia) =>
+          let (k, v) := kv
+          if k == "type".toList || k == "group".toList || k == "name".toList then some m
+          else if k == "settype".toList then ((MediaType.parse v).toOption').map fun t => { m with media_type := t }
+          else if k == "default".toList then (bool01? v).map fun x => { m with is_default := x }
+          else if k == "autoselect".toList then (bool01? v).map fun x => { m with is_autoselect := x }
+          else if k == "forced".toList then (bool01? v).map fun x => { m with is_forced := x }
+          else if k == "instream".toList then ((InStreamId.parse v).toOption').map fun x => { m with instream_id := some x }
+          else if k == "channels".toList then ((Channels.parse v).toOption').map fun x => { m with channels := some x }
+          else none)
+        (some ⟨ty, none, g, none, none, n, false, false, false, none, none, none⟩)
+    | _, _, _ => none
+
 def masterCall (b : MasterPlaylistBuilder) (call : Str) : Option MasterPlaylistBuilder :=
   match tokens call with
   | [] => none
@@ -385,6 +414,9 @@ def masterCall (b : MasterPlaylistBuilder) (call : Str) : Option MasterPlaylistB
           | .ok m => some m
           | _ => none)
         | none => none)).map fun v => { b with media := some v }
+    else if name == "mediaf".toList then
+      -- renditions made with `ExtXMedia::new` and then changed through their public fields: no validation in between
+      (allSome (args.map fun a => mediaFromFields (a.map fun c => if c == '+' then ' ' else c))).map fun v => { b with media := some v }
     else if name == "variants".toList then (parseAll VariantStream.parse args).map fun v => { b with variant_streams := some v }
     else if name == "sdata".toList then (parseAll ExtXSessionData.parse args).map fun v => { b with session_data := some v }
     else if name == "skeys".toList then (parseAll ExtXSessionKey.parse args).map fun v => { b with session_keys := some v }
